@@ -25,6 +25,7 @@ import (
 	"net/http/httptest"
 	neturl "net/url"
 	"os"
+	"sort"
 	"strconv"
 	"strings"
 	"sync"
@@ -78,7 +79,9 @@ type scriptCase struct {
 	Pred     string      `json:"pred"`            // "" = retry.DefaultPredicate; else <code><R|S|F>,...;d<rule>;e<rule>
 	Method   string      `json:"method"`          // HTTP method ("" = PUT)
 	DefaultPolicy bool   `json:"default_policy"`  // use retry.DefaultPolicy (random jitter: oracle only, no model line)
-	PreAuth  bool        `json:"pre_auth"`        // op T only: the stack is the auth client, the request already carries Authorization (no challenge handling)
+	PreAuth  bool        `json:"pre_auth"`
+	TokenScript []behaviour `json:"token_script"` // op Q: what the token service answers
+	TokenPost   bool        `json:"token_post"`   // op Q: OAuth2 POST (form body) instead of the distribution GET        // op T only: the stack is the auth client, the request already carries Authorization (no challenge handling)
 	Data     string      `json:"data"`            // hex
 	BigLen   int         `json:"big_len"`         // >0: data is generated (pattern), oracle only
 	Script   []behaviour `json:"script"`
@@ -162,7 +165,23 @@ func (c *scriptCase) modelLine() string {
 	if len(opts) > 0 {
 		o = strings.Join(opts, ",")
 	}
-	return fmt.Sprintf("%s %s %d %d %d %s %d %s %s%s %s %s %s", c.Op, predToken(c.Pred), c.MaxRetry, c.Min, c.Max, joinInts(c.Tbl), c.Dflt, cn, c.Manifest, c.Body, d, sc, o)
+	line := fmt.Sprintf("%s %s %d %d %d %s %d %s %s%s %s %s %s", c.Op, predToken(c.Pred), c.MaxRetry, c.Min, c.Max, joinInts(c.Tbl), c.Dflt, cn, c.Manifest, c.Body, d, sc, o)
+	if c.Op == "Q" || c.Op == "Z" || c.Op == "w" {
+		tb := "G"
+		if c.TokenPost {
+			tb = "P" + hex.EncodeToString([]byte(c.tokenFormOf()))
+		}
+		ts := "-"
+		if len(c.TokenScript) > 0 {
+			p := make([]string, len(c.TokenScript))
+			for i, b := range c.TokenScript {
+				p[i] = b.String()
+			}
+			ts = strings.Join(p, ";")
+		}
+		line += " " + tb + " " + ts
+	}
+	return line
 }
 
 // ---------------------------------------------------------------- scripted server
@@ -226,6 +245,49 @@ func shapeByName(n string) *errShape {
 	panic("unknown error shape " + n)
 }
 
+// checkLibraryFacts: the facts about net/http that the model takes for granted (assumptions of the
+// props file), re-checked on every run against the toolchain the harness is built with.
+func checkLibraryFacts() {
+	must := func(ok bool, what string) {
+		if !ok {
+			panic("net/http no longer behaves as the C17 model assumes: " + what)
+		}
+	}
+	data := []byte("abc")
+	r1, _ := http.NewRequest(http.MethodPut, "http://x/", bytes.NewReader(data))
+	must(r1.GetBody != nil && r1.ContentLength == 3, "NewRequest installs GetBody and ContentLength for *bytes.Reader")
+	r2, _ := http.NewRequest(http.MethodPut, "http://x/", &oneShot{bytes.NewReader(data)})
+	must(r2.GetBody == nil && r2.Body != nil && r2.ContentLength == 0, "NewRequest leaves GetBody nil and ContentLength 0 for an unknown reader")
+	r3, _ := http.NewRequest(http.MethodPut, "http://x/", io.NopCloser(bytes.NewReader(data)))
+	must(r3.GetBody == nil, "NewRequest leaves GetBody nil for a ReadCloser wrapping a replayable reader")
+	r4, _ := http.NewRequest(http.MethodPut, "http://x/", nil)
+	must(r4.Body == nil && r4.GetBody == nil, "NewRequest with a nil body leaves Body nil")
+	c := r1.Clone(context.Background())
+	must(c.Body == r1.Body, "Request.Clone shares Body")
+	b1, _ := c.GetBody()
+	got, _ := io.ReadAll(b1)
+	must(string(got) == "abc", "Request.Clone shares GetBody")
+	var de error = context.DeadlineExceeded
+	ne, ok := de.(net.Error)
+	must(ok && ne.Timeout(), "context.DeadlineExceeded is a net.Error reporting Timeout()")
+	_, ok = error(context.Canceled).(net.Error)
+	must(!ok, "context.Canceled is not a net.Error")
+	// http.Client.Do hands the request (Body, GetBody, ContentLength, context) to the RoundTripper and
+	// returns its response for the status codes used
+	var seen *http.Request
+	hc := &http.Client{Transport: roundTripFunc(func(q *http.Request) (*http.Response, error) {
+		seen = q
+		return &http.Response{StatusCode: 503, Header: http.Header{}, Body: http.NoBody, Request: q}, nil
+	})}
+	resp, err := hc.Do(r1)
+	must(err == nil && resp.StatusCode == 503 && seen != nil && seen.Body == r1.Body && seen.ContentLength == 3 && seen.GetBody != nil,
+		"http.Client.Do passes Body/GetBody/ContentLength through and returns the RoundTripper's response")
+}
+
+type roundTripFunc func(*http.Request) (*http.Response, error)
+
+func (f roundTripFunc) RoundTrip(r *http.Request) (*http.Response, error) { return f(r) }
+
 // the declarations above must be what the Go values really report (guards the table)
 func checkShapes() {
 	for _, s := range errShapes {
@@ -248,6 +310,19 @@ func (b behaviour) shape() *errShape {
 	return nil
 }
 
+// the form fetchOAuth2Token posts for the credential, service and scope of these cases
+const tokenForm = "client_id=oras-go&grant_type=password&password=p&scope=repository%3Ar%3Apull&service=scripted&username=u"
+
+// within a push the request's context carries the push's scope, which the form then names
+const tokenFormPush = "client_id=oras-go&grant_type=password&password=p&scope=repository%3Ar%3Apull%2Cpush&service=scripted&username=u"
+
+func (c *scriptCase) tokenFormOf() string {
+	if c.Op == "Z" || c.Manifest != "" {
+		return tokenFormPush
+	}
+	return tokenForm
+}
+
 const indexedManifestJSON = `{"schemaVersion":2,"mediaType":"application/vnd.oci.image.manifest.v1+json","config":{"mediaType":"application/vnd.oci.empty.v1+json","digest":"sha256:44136fa355b3678a1146ad16f7e8649e94fb4fc21fe77e8310c060f61caaff8a","size":2},"layers":[]}`
 
 var errPred = errors.New("scripted: predicate refuses this answer")
@@ -258,6 +333,7 @@ type attemptRec struct {
 	auth string // Authorization header of the request
 	method string
 	ctxEnded bool // the request's context had already ended when the request reached the server
+	seq        int // position in the order in which the scripted transport saw all requests of the case
 	url, ctype string
 	clen       int64 // Request.ContentLength as the transport would frame the body
 	beh  behaviour
@@ -278,6 +354,8 @@ type server struct {
 	tokenScript   []behaviour
 	tokenPos      int
 	tokenLog      []attemptRec
+	seq           int
+	lastToken     bool // the last scripted request went to the token service
 }
 
 func (s *server) RoundTrip(req *http.Request) (*http.Response, error) {
@@ -305,13 +383,28 @@ func (s *server) RoundTrip(req *http.Request) (*http.Response, error) {
 			}
 			req.Body.Close()
 		}
+		rec.ctxEnded = req.Context().Err() != nil
+		s.seq++
+		rec.seq = s.seq
 		s.tokenLog = append(s.tokenLog, rec)
+		s.lastToken, s.lastShape, s.lastCode = true, nil, 0
+		if rec.ctxEnded {
+			return nil, req.Context().Err()
+		}
 		if b.Lat > 0 {
-			time.Sleep(time.Duration(b.Lat))
+			tm := time.NewTimer(time.Duration(b.Lat))
+			select {
+			case <-req.Context().Done():
+				tm.Stop()
+				return nil, req.Context().Err()
+			case <-tm.C:
+			}
 		}
-		if sh := b.shape(); sh != nil {
-			return nil, sh.err
+		s.lastShape = b.shape()
+		if s.lastShape != nil {
+			return nil, s.lastShape.err
 		}
+		s.lastCode = b.Code
 		if b.Code != 200 {
 			return mk(b.Code, ""), nil
 		}
@@ -325,6 +418,10 @@ func (s *server) RoundTrip(req *http.Request) (*http.Response, error) {
 		}
 		s.tokens++
 		return mk(200, fmt.Sprintf(`{"access_token":"tok%d","token":"tok%d"}`, s.tokens, s.tokens)), nil
+	}
+	s.lastToken = false
+	if len(s.log) > 4000 {
+		panic("runaway: more than 4000 requests in one case") // (no case needs more than ~30)
 	}
 	b := behaviour{Kind: "S", Code: 200, Read: -1}
 	if s.pos < len(s.script) {
@@ -344,6 +441,8 @@ func (s *server) RoundTrip(req *http.Request) (*http.Response, error) {
 		req.Body.Close()
 	}
 	rec.ctxEnded = req.Context().Err() != nil
+	s.seq++
+	rec.seq = s.seq
 	s.log = append(s.log, rec)
 	if rec.ctxEnded {
 		// like net/http's transport: nothing is done for a request whose context has ended
@@ -392,6 +491,7 @@ type scriptObs struct {
 	res    string
 	end    int64
 	log    []attemptRec
+	tokenLog []attemptRec
 	panicv any
 }
 
@@ -399,6 +499,12 @@ type scriptObs struct {
 // (the only error the auth client produces by itself then is its refusal to re-send a body it
 // cannot rewind) -- keeps the classification independent of the wording of that error.
 func classify(resp *http.Response, err error, last *errShape, rewindHint string) string {
+	return classifyTok(resp, err, last, rewindHint, false)
+}
+
+// tokenLast: the last scripted request went to the token service (an error response is the
+// token service's then)
+func classifyTok(resp *http.Response, err error, last *errShape, rewindHint string, tokenLast bool) string {
 	if err == nil {
 		if resp == nil {
 			return "NILNIL"
@@ -415,6 +521,9 @@ func classify(resp *http.Response, err error, last *errShape, rewindHint string)
 	case errors.Is(err, errPred):
 		return "EPRED"
 	case errors.As(err, &er):
+		if tokenLast {
+			return fmt.Sprintf("ETOKEN%d", er.StatusCode)
+		}
 		return fmt.Sprintf("RESP%d", er.StatusCode)
 	case strings.Contains(err.Error(), "request body is not rewindable"):
 		return "ENOTREWINDABLE"
@@ -428,8 +537,8 @@ func classify(resp *http.Response, err error, last *errShape, rewindHint string)
 }
 
 func (s *server) rewindHint(c *scriptCase) string {
-	if s.lastCode != 401 || s.lastShape != nil {
-		return ""
+	if s.lastShape != nil || !(s.lastCode == 401 && !s.lastToken || s.lastCode == 200 && s.lastToken) {
+		return "" // (after a challenge, or after the token for it arrived)
 	}
 	switch c.Body[0] {
 	case 'O':
@@ -505,17 +614,41 @@ func (c *scriptCase) policy() retry.Policy {
 	}
 }
 
-func execScript(t *testing.T, c *scriptCase) scriptObs {
-	var obs scriptObs
+// wedged: a case that does not finish.  Under synctest a blocked bubble panics ("deadlock"), which
+// is turned into an oracle failure; a bubble that spins, or real I/O that hangs, is caught by a
+// wall-clock watchdog (generous: a case takes well under a millisecond) that records the case as
+// a failure with its replay and ends the run, so that the check reports instead of hanging.
+func watchdog(id string, replay any) *time.Timer {
+	return time.AfterFunc(90*time.Second, func() {
+		run.OracleFail(id, "wedged", "wedged: the case did not finish within 90 s of wall-clock time", replay)
+		run.Finish()
+		os.Exit(3)
+	})
+}
+
+func execScript(t *testing.T, c *scriptCase) (obs scriptObs) {
 	data := c.data()
+	wd := watchdog(fmt.Sprintf("w%d", run.Evaluations), c)
+	defer wd.Stop()
+	defer func() {
+		if r := recover(); r != nil {
+			// synctest: "deadlock: all goroutines in bubble are blocked"
+			obs.panicv, obs.res = r, "PANIC"
+		}
+	}()
 	synctest.Test(t, func(t *testing.T) {
 		srv := &server{start: time.Now(), script: c.Script}
 		var authClient *auth.Client
-		if c.Op == "A" || c.Op == "W" || c.Op == "V" || c.Op == "U" || c.Op == "X" || c.PreAuth {
+		if c.Op == "A" || c.Op == "W" || c.Op == "w" || c.Op == "V" || c.Op == "U" || c.Op == "X" || c.Op == "Q" || c.Op == "Y" || c.Op == "Z" || c.PreAuth {
 			authClient = &auth.Client{Cache: auth.NewCache(),
 				Credential: auth.StaticCredential("registry.example", auth.Credential{Username: "u", Password: "p"})}
 		}
-		if c.Op == "W" {
+		if c.Op == "Q" || c.Op == "Z" {
+			// the token request is part of the case: scripted token service, GET or OAuth2 POST
+			srv.tokenScripted, srv.tokenScript = true, c.TokenScript
+			authClient.ForceAttemptOAuth2 = c.TokenPost
+		}
+		if c.Op == "W" || c.Op == "w" {
 			// warm the token cache: one challenged GET, so that a Bearer token for the
 			// challenge's scope is cached before the request under test
 			authClient.Client = &http.Client{Transport: srv} // no retries, no custom predicate during the warm-up
@@ -527,6 +660,11 @@ func execScript(t *testing.T, c *scriptCase) scriptObs {
 			}
 			wresp.Body.Close()
 			srv.script, srv.pos, srv.log, srv.start = c.Script, 0, nil, time.Now()
+			if c.Op == "w" {
+				// from here on the token service is scripted (the fresh token of the third send)
+				srv.tokenScripted, srv.tokenScript = true, c.TokenScript
+				authClient.ForceAttemptOAuth2 = c.TokenPost
+			}
 		}
 		ctx := context.Background()
 		if c.Op == "V" || c.Op == "X" {
@@ -583,7 +721,31 @@ func execScript(t *testing.T, c *scriptCase) scriptObs {
 					obs.res = "PANIC"
 				}
 			}()
-			if c.Op == "U" || c.Op == "u" || c.Op == "X" {
+			if c.Op == "Y" || c.Op == "y" {
+				// cross-repository mount that the registry declines (202): the blob is uploaded instead, read
+				// from an io.ReadCloser -- whatever that wraps, the PUT's body cannot be replayed
+				repo, err := remote.NewRepository("registry.example/r")
+				if err != nil {
+					panic(err)
+				}
+				repo.PlainHTTP = true
+				repo.Client = client
+				desc := ocispec.Descriptor{MediaType: "application/octet-stream",
+					Digest: digest.Digest("sha256:" + hex.EncodeToString(sha256Sum(data))), Size: int64(len(data))}
+				err = repo.Mount(ctx, desc, "other", func() (io.ReadCloser, error) {
+					if len(data)%2 == 0 {
+						return io.NopCloser(bytes.NewReader(data)), nil // a replayable reader behind a ReadCloser
+					}
+					return io.NopCloser(&oneShot{bytes.NewReader(data)}), nil
+				})
+				if err == nil {
+					obs.res = "RESP201"
+				} else {
+					obs.res = classifyTok(nil, err, srv.lastShape, srv.rewindHint(c), srv.lastToken)
+				}
+				return
+			}
+			if c.Op == "U" || c.Op == "u" || c.Op == "X" || c.Op == "Z" {
 				// blob push through the Repository: POST (no body), then PUT with the blob
 				repo, err := remote.NewRepository("registry.example/r")
 				if err != nil {
@@ -601,7 +763,7 @@ func execScript(t *testing.T, c *scriptCase) scriptObs {
 				if err == nil {
 					obs.res = "RESP201"
 				} else {
-					obs.res = classify(nil, err, srv.lastShape, srv.rewindHint(c))
+					obs.res = classifyTok(nil, err, srv.lastShape, srv.rewindHint(c), srv.lastToken)
 				}
 				return
 			}
@@ -626,7 +788,7 @@ func execScript(t *testing.T, c *scriptCase) scriptObs {
 				if err == nil {
 					obs.res = "RESP201"
 				} else {
-					obs.res = classify(nil, err, srv.lastShape, srv.rewindHint(c))
+					obs.res = classifyTok(nil, err, srv.lastShape, srv.rewindHint(c), srv.lastToken)
 				}
 				return
 			}
@@ -675,13 +837,14 @@ func execScript(t *testing.T, c *scriptCase) scriptObs {
 				req.Header.Set("Authorization", "Bearer preset")
 			}
 			resp, err := client.Do(req)
-			obs.res = classify(resp, err, srv.lastShape, srv.rewindHint(c))
+			obs.res = classifyTok(resp, err, srv.lastShape, srv.rewindHint(c), srv.lastToken)
 			if resp != nil {
 				resp.Body.Close()
 			}
 		}()
 		obs.end = int64(time.Since(srv.start))
 		obs.log = srv.log
+		obs.tokenLog = srv.tokenLog
 	})
 	return obs
 }
@@ -743,7 +906,20 @@ func scriptCaseRun(t *testing.T, c *scriptCase) {
 	if c.Op != "T" {
 		line += " second=" + showAttempts(sends[1], data) + " third=" + showAttempts(sends[2], data)
 	}
-	upload := c.Op == "U" || c.Op == "u" || c.Op == "X"
+	var form []byte
+	if c.TokenPost {
+		form = []byte(c.tokenFormOf())
+	}
+	if c.Op == "Q" {
+		line = fmt.Sprintf("%s end=%d first=%s token=%s second=%s", obs.res, obs.end, showAttempts(sends[0], data),
+			showAttempts(obs.tokenLog, form), showAttempts(sends[1], data))
+		run.Count(fmt.Sprintf("token_attempts_%d", len(obs.tokenLog)))
+	}
+	if c.Op == "w" {
+		line = fmt.Sprintf("%s end=%d first=%s second=%s token=%s third=%s", obs.res, obs.end, showAttempts(sends[0], data),
+			showAttempts(sends[1], data), showAttempts(obs.tokenLog, form), showAttempts(sends[2], data))
+	}
+	upload := c.Op == "U" || c.Op == "u" || c.Op == "X" || c.Op == "Y" || c.Op == "y" || c.Op == "Z"
 	if upload {
 		// sends of a blob push: POST (as sent first / re-sent after a challenge), PUT (same)
 		sends = make([][]attemptRec, 4)
@@ -761,6 +937,10 @@ func scriptCaseRun(t *testing.T, c *scriptCase) {
 		}
 		line = fmt.Sprintf("%s end=%d post=%s|%s put=%s|%s", obs.res, obs.end, showAttempts(sends[0], nil), showAttempts(sends[1], nil),
 			showAttempts(sends[2], data), showAttempts(sends[3], data))
+		if c.Op == "Z" {
+			line += " tok=" + showAttempts(obs.tokenLog, form)
+			run.Count(fmt.Sprintf("token_attempts_%d", len(obs.tokenLog)))
+		}
 	}
 	if c.DefaultPolicy {
 		run.Evaluations++
@@ -806,6 +986,25 @@ func scriptCaseRun(t *testing.T, c *scriptCase) {
 			break
 		}
 	}
+	// O1t: the token request (op Q) carries its whole form on every attempt, and stays the same request
+	for i, r := range obs.tokenLog {
+		want := form
+		if r.beh.Read >= 0 && r.beh.Read < len(want) {
+			want = want[:r.beh.Read]
+		}
+		wantMethod := http.MethodGet
+		if c.TokenPost {
+			wantMethod = http.MethodPost
+		}
+		if !bytes.Equal(r.got, want) {
+			fail("body-truncated", fmt.Sprintf("token request attempt %d received %q, its form is %q and the service read up to %d", i, r.got, form, r.beh.Read))
+			break
+		}
+		if r.method != wantMethod || r.clen != int64(len(form)) || r.url != obs.tokenLog[0].url || r.ctype != obs.tokenLog[0].ctype {
+			fail("request-changed", fmt.Sprintf("token request attempt %d: %s %s Content-Length %d Content-Type %q", i, r.method, r.url, r.clen, r.ctype))
+			break
+		}
+	}
 	// O1b: a re-sent request is the same request: method, URL, Content-Type as on the first attempt
 	// with that method, and the Content-Length the caller (generator) gave it -- a real transport
 	// frames the body by it, so a stale or reset value truncates or breaks the upload
@@ -837,7 +1036,15 @@ func scriptCaseRun(t *testing.T, c *scriptCase) {
 	if c.Op == "T" && len(sends[1]) > 0 {
 		fail("wrong-result", "the Authorization header changed between attempts of a plain transport")
 	}
-	for si, send := range sends {
+	// token requests: one send per fetch (a push may fetch twice: consecutive runs in the request order)
+	var tokenSends [][]attemptRec
+	for i, r := range obs.tokenLog {
+		if i == 0 || r.seq != obs.tokenLog[i-1].seq+1 {
+			tokenSends = append(tokenSends, nil)
+		}
+		tokenSends[len(tokenSends)-1] = append(tokenSends[len(tokenSends)-1], r)
+	}
+	for si, send := range append(append([][]attemptRec(nil), sends...), tokenSends...) {
 		if len(send) > limit {
 			fail("too-many-attempts", fmt.Sprintf("send %d made %d attempts, MaxRetry=%d", si, len(send), c.MaxRetry))
 		}
@@ -887,7 +1094,7 @@ func scriptCaseRun(t *testing.T, c *scriptCase) {
 		if endAt < 0 {
 			endAt = 0
 		}
-		for i, r := range obs.log {
+		for i, r := range append(append([]attemptRec(nil), obs.log...), obs.tokenLog...) {
 			// the first request of the call is the caller's; every later one is a re-send decided by the stack
 			if i > 0 && (r.t > c.Cancel || r.ctxEnded) {
 				fail("cancel-ignored", fmt.Sprintf("attempt %d started at %d on a context that ended at %d", i, r.t, c.Cancel))
@@ -901,6 +1108,35 @@ func scriptCaseRun(t *testing.T, c *scriptCase) {
 			fail("cancel-result", "call ended with the context but did not return its error")
 		}
 	}
+	// O7 (op Q, the call ended with the token request): the token service's last answer decides
+	tokenWasLast := len(obs.tokenLog) > 0 && (len(obs.log) == 0 || obs.tokenLog[len(obs.tokenLog)-1].seq > obs.log[len(obs.log)-1].seq)
+	if (c.Op == "Q" || c.Op == "Z" || c.Op == "w") && obs.res != "ECTX" && tokenWasLast {
+		tl := obs.tokenLog[len(obs.tokenLog)-1]
+		var want []string
+		switch {
+		case tl.beh.shape() != nil:
+			want = []string{"EERR" + tl.beh.shape().flags()}
+		case tl.beh.Code == 200:
+			// the token arrived and nothing was sent again: only a body that cannot be rewound explains it
+			if c.Body[0] == 'O' {
+				want = []string{"ENOTREWINDABLE"}
+			} else if c.Body[0] == 'G' {
+				want = []string{"EGETBODY"}
+			}
+		default:
+			want = []string{fmt.Sprintf("ETOKEN%d", tl.beh.Code)}
+			if c.Pred != "" && predRule(c.Pred, tl.beh) == 'F' && len(obs.tokenLog)-1 < c.MaxRetry {
+				want = []string{"EPRED"}
+			}
+		}
+		ok := false
+		for _, w := range want {
+			ok = ok || w == obs.res
+		}
+		if !ok {
+			fail("wrong-result", fmt.Sprintf("the token service's last answer was %s, expected %v", outcomeTruth(c.Pred, tl.beh), want))
+		}
+	} else
 	// O7: the result is the last answer (or a rewind error of the auth client)
 	if obs.res != "ECTX" && len(obs.log) > 0 {
 		last := obs.log[len(obs.log)-1]
@@ -921,7 +1157,7 @@ func scriptCaseRun(t *testing.T, c *scriptCase) {
 		rewindErr := obs.res == "ENOTREWINDABLE" && c.Body[0] == 'O' || obs.res == "EGETBODY" && c.Body[0] == 'G'
 		if !ok && rewindErr && upload {
 			// blob push: the PUT was challenged (it did not inherit credentials from the POST)
-			if (c.Op == "U" || c.Op == "X") && last.beh.Kind == "S" && last.beh.Code == 401 && (last.beh.Chal == 1 || last.beh.Chal == 2) &&
+			if (c.Op == "U" || c.Op == "X" || c.Op == "Y" || c.Op == "Z") && last.beh.Kind == "S" && last.beh.Code == 401 && (last.beh.Chal == 1 || last.beh.Chal == 2) &&
 				len(sends[1]) == 0 && len(sends[2]) > 0 && len(sends[3]) == 0 {
 				ok = true
 			}
@@ -933,7 +1169,7 @@ func scriptCaseRun(t *testing.T, c *scriptCase) {
 			switch {
 			case len(sends[1]) == 0 && (last.beh.Chal == 1 || last.beh.Chal == 2):
 				ok = true
-			case c.Op == "W" && len(sends[1]) > 0 && len(sends[2]) == 0 && firstLast.Code == 401 && firstLast.Chal == 2:
+			case (c.Op == "W" || c.Op == "w") && len(sends[1]) > 0 && len(sends[2]) == 0 && firstLast.Code == 401 && firstLast.Chal == 2:
 				ok = true
 			}
 		}
@@ -1078,7 +1314,9 @@ var statusPool = []int{200, 201, 202, 204, 400, 401, 403, 404, 405, 408, 409, 41
 var retryAfterPool = []string{"", "", "", "1", "2", "120", "0", "-5", "abc", "99999999999999999999", "9223372036", "9223372037", "3.5", "0x10", "1_0", "007", "-", "18446744073709551617", "-99999999999999999999", "5s", "٣",
 	// strconv.ParseInt's own reading (the code as written): a sign is accepted, blanks are not;
 	// an HTTP-date is not understood (not honoured: falls back to the exponential backoff)
-	"+3", "+", " 3", "3 ", "Wed, 21 Oct 2015 07:28:00 GMT"}
+	"+3", "+", " 3", "3 ", "Wed, 21 Oct 2015 07:28:00 GMT",
+	// ParseUint gives up at the point of uint64 overflow, before it sees the rest
+	"99999999999999999999x", "18446744073709551616 seconds", "9223372036854775808x"}
 
 func genBehaviour(r *common.Rand, forAuth bool, evenLat bool) behaviour {
 	b := behaviour{Kind: "S", Read: -1}
@@ -1144,7 +1382,7 @@ func genDuration(r *common.Rand) int64 {
 }
 
 func genScript(r *common.Rand, big bool) *scriptCase {
-	c := &scriptCase{Op: common.Pick(r, []string{"T", "T", "T", "A", "A", "A", "W", "W", "V", "V", "U", "U", "u", "X", "X"}), Cancel: -1}
+	c := &scriptCase{Op: common.Pick(r, []string{"T", "T", "T", "A", "A", "A", "W", "W", "V", "V", "U", "U", "u", "X", "X", "Q", "Q", "Q", "Y", "y", "Z", "Z", "w", "w"}), Cancel: -1}
 	c.MaxRetry = common.Pick(r, []int{0, 1, 2, 3, 3, 5, 5, 8, -1})
 	c.Min = genDuration(r)
 	if c.Min < 0 && r.Chance(3, 4) {
@@ -1204,7 +1442,7 @@ func genScript(r *common.Rand, big bool) *scriptCase {
 	if (c.Body == "R" || c.Body == "O") && !c.UnknownLen && !c.PreAuth && c.Method == "" && r.Chance(1, 3) {
 		// manifest push through the Repository: M = auth client, m = plain retrying client
 		c.Manifest = map[string]string{"A": "M", "T": "m"}[c.Op]
-		if c.Manifest != "" && r.Chance(1, 3) {
+		if c.Manifest != "" && c.BigLen == 0 && r.Chance(1, 3) {
 			// an OCI image manifest without subject (valid JSON: the client looks for a subject after the push)
 			c.Manifest = map[string]string{"M": "I", "m": "i"}[c.Manifest]
 			c.Data = hex.EncodeToString([]byte(indexedManifestJSON))
@@ -1228,7 +1466,13 @@ func genScript(r *common.Rand, big bool) *scriptCase {
 			}
 		}
 	}
-	if c.Op == "U" || c.Op == "u" || c.Op == "X" {
+	if c.Op == "Y" || c.Op == "y" {
+		c.Body = "O" // the fallback upload of a mount reads from an io.ReadCloser
+		if c.Data == "" && c.BigLen == 0 {
+			c.Data = common.Pick(r, []string{"00010203", "0001020304"})
+		}
+	}
+	if c.Op == "U" || c.Op == "u" || c.Op == "X" || c.Op == "Y" || c.Op == "y" || c.Op == "Z" {
 		// blob push: some answers for the POST, its 202, some answers for the PUT, its 201
 		if c.Body != "R" && c.Body != "O" {
 			c.Body = common.Pick(r, []string{"R", "O"})
@@ -1239,15 +1483,93 @@ func genScript(r *common.Rand, big bool) *scriptCase {
 		c.UnknownLen, c.Method, c.PreAuth, c.Manifest = false, "", false, ""
 		var sc []behaviour
 		for i := r.Intn(3); i > 0; i-- {
-			sc = append(sc, genBehaviour(r, c.Op != "u", true))
+			sc = append(sc, genBehaviour(r, c.Op != "u" && c.Op != "y", true))
 		}
 		sc = append(sc, behaviour{Kind: "S", Code: 202, Read: -1, Lat: int64(r.Intn(20)) * 2})
 		for i := r.Intn(4); i > 0; i-- {
-			sc = append(sc, genBehaviour(r, c.Op != "u", true))
+			sc = append(sc, genBehaviour(r, c.Op != "u" && c.Op != "y", true))
 		}
 		c.Script = append(sc, behaviour{Kind: "S", Code: 201, Read: -1})
 	}
-	if c.Op == "W" && len(c.Script) >= 2 {
+	if c.Op == "Z" {
+		// a push whose POST (and sometimes PUT) is challenged, with a token service that needs a few attempts
+		c.TokenPost = r.Chance(1, 2)
+		if r.Chance(1, 2) {
+			c.Script = append([]behaviour{{Kind: "S", Code: 401, Chal: 2, Read: -1, Lat: int64(r.Intn(10)) * 2}}, c.Script...)
+		} else {
+			// the POST is accepted without credentials: the PUT is challenged and fetches the token itself
+			for i, b := range c.Script {
+				if b.Kind == "S" && b.Code == 202 {
+					rest := append([]behaviour{{Kind: "S", Code: 401, Chal: 2, Read: common.Pick(r, []int{-1, 2}), Lat: int64(r.Intn(10)) * 2}}, c.Script[i+1:]...)
+					c.Script = append(c.Script[:i+1:i+1], rest...)
+					break
+				}
+			}
+		}
+		for i := r.Intn(5); i > 0; i-- {
+			b := genBehaviour(r, false, true)
+			if b.Kind == "S" && b.Code >= 300 && b.Code < 400 {
+				b.Code = 503
+			}
+			if b.Read >= 0 {
+				b.Read = r.Intn(130)
+			}
+			c.TokenScript = append(c.TokenScript, b)
+		}
+		if r.Chance(3, 4) {
+			c.TokenScript = append(c.TokenScript, behaviour{Kind: "S", Code: 200, Read: -1, Lat: int64(r.Intn(30)) * 2})
+		}
+	}
+	if c.Op == "Q" {
+		// a Bearer challenge early on, and a token service that needs a few attempts
+		c.Manifest, c.PreAuth = "", false
+		if (c.Body == "R" || c.Body == "O") && c.BigLen == 0 && r.Chance(1, 4) {
+			// a manifest push (buffered for the auth client) whose token request is scripted
+			c.Manifest, c.UnknownLen, c.Method = "M", false, ""
+		}
+		c.TokenPost = r.Chance(1, 2)
+		k := r.Intn(3)
+		for len(c.Script) <= k {
+			c.Script = append(c.Script, genBehaviour(r, true, true))
+		}
+		c.Script[k] = behaviour{Kind: "S", Code: 401, Chal: 2, Read: common.Pick(r, []int{-1, -1, 3}), Lat: int64(r.Intn(10)) * 2}
+		for i := 0; i < k; i++ {
+			if !retryableTruth(c.Pred, c.Script[i]) {
+				c.Script[i] = behaviour{Kind: "S", Code: 503, Read: -1}
+			}
+		}
+		for i := r.Intn(5); i > 0; i-- {
+			b := genBehaviour(r, false, true)
+			if b.Kind == "S" && b.Code >= 300 && b.Code < 400 {
+				b.Code = 503
+			}
+			if b.Read >= 0 {
+				b.Read = r.Intn(120)
+			}
+			c.TokenScript = append(c.TokenScript, b)
+		}
+		if r.Chance(2, 3) {
+			c.TokenScript = append(c.TokenScript, behaviour{Kind: "S", Code: 200, Read: -1, Lat: int64(r.Intn(30)) * 2})
+		}
+	}
+	if c.Op == "w" {
+		c.Manifest, c.PreAuth = "", false
+		c.TokenPost = r.Chance(1, 2)
+		for i := r.Intn(4); i > 0; i-- {
+			b := genBehaviour(r, false, true)
+			if b.Kind == "S" && b.Code >= 300 && b.Code < 400 {
+				b.Code = 503
+			}
+			if b.Read >= 0 {
+				b.Read = r.Intn(120)
+			}
+			c.TokenScript = append(c.TokenScript, b)
+		}
+		if r.Chance(3, 4) {
+			c.TokenScript = append(c.TokenScript, behaviour{Kind: "S", Code: 200, Read: -1, Lat: int64(r.Intn(30)) * 2})
+		}
+	}
+	if (c.Op == "W" || c.Op == "w") && len(c.Script) >= 2 {
 		// exercise the cached-token re-send and the fresh-token third send
 		if r.Chance(1, 2) {
 			c.Script[0].Kind, c.Script[0].Code, c.Script[0].Chal = "S", 401, 2
@@ -1449,8 +1771,11 @@ func enumUploads(t *testing.T, maxLen int) {
 	var rec func(prefix []behaviour)
 	rec = func(prefix []behaviour) {
 		if len(prefix) > 0 {
-			for _, op := range []string{"U", "u", "X"} {
+			for _, op := range []string{"U", "u", "X", "Y", "y"} {
 				for _, body := range []string{"R", "O"} {
+					if (op == "Y" || op == "y") && body == "R" {
+						continue
+					}
 					scriptCaseRun(t, &scriptCase{Op: op, MaxRetry: 2, Min: 100, Max: 1000, Tbl: []int64{50, 5000}, Dflt: 300, Cancel: -1,
 						Body: body, Data: "0102030405", Script: append([]behaviour(nil), prefix...)})
 					run.Count("enumerated_uploads")
@@ -1609,7 +1934,17 @@ type realCase struct {
 }
 
 func realTransportScenario(c *realCase) {
+	// a scenario takes milliseconds; one that does not finish in 20 s is run once more (loaded
+	// machine?) and reported as wedged if it hangs again
+	if realTransportOnce(c, 20*time.Second) == "HANG" && realTransportOnce(c, 40*time.Second) == "HANG" {
+		run.OracleFail(run.NewID(), "wedged", "wedged: the request over the real transport did not return (twice)", c)
+	}
+}
+
+func realTransportOnce(c *realCase, limit time.Duration) string {
 	id := run.NewID()
+	wd := watchdog(id, c)
+	defer wd.Stop()
 	data := make([]byte, c.Size)
 	for i := range data {
 		data[i] = byte((i*31 + i/255) % 251)
@@ -1665,12 +2000,17 @@ func realTransportScenario(c *realCase) {
 	if c.OneShot {
 		body = &oneShot{bytes.NewReader(data)}
 	}
-	req, err := http.NewRequest(http.MethodPut, srv.URL+"/v2/r/blobs/uploads/1", body)
+	rctx, rcancel := context.WithTimeout(context.Background(), limit)
+	defer rcancel()
+	req, err := http.NewRequestWithContext(rctx, http.MethodPut, srv.URL+"/v2/r/blobs/uploads/1", body)
 	if err != nil {
 		panic(err)
 	}
 	req.ContentLength = int64(len(data))
 	resp, err := client.Do(req)
+	if err != nil && rctx.Err() != nil {
+		return "HANG"
+	}
 	res := "ERR"
 	if err == nil {
 		res = fmt.Sprintf("RESP%d", resp.StatusCode)
@@ -1696,6 +2036,7 @@ func realTransportScenario(c *realCase) {
 	if len(log) > 1 {
 		run.Nontrivial(fmt.Sprintf("real %+v", *c))
 	}
+	return res
 }
 
 func genReal(r *common.Rand) *realCase {
@@ -1711,6 +2052,76 @@ func genReal(r *common.Rand) *realCase {
 	}
 	c.Plan = append(c.Plan, 201)
 	return c
+}
+
+var tokenAlphabet = []behaviour{
+	{Kind: "S", Code: 200, Read: -1, Lat: 4}, {Kind: "S", Code: 503, Read: 7}, {Kind: "S", Code: 403, Read: -1}, {Kind: "TO", Read: -1, Lat: 2},
+	{Kind: "E", Err: "op-emfile", Read: 0}, {Kind: "S", Code: 429, RetryAfter: "1", Read: -1},
+}
+
+// enumTokens: a Bearer challenge after every short prefix of retryable answers, every sequence of
+// token-service answers up to maxLen, GET and POST token requests, three body kinds
+func enumTokens(t *testing.T, maxLen int) {
+	var rec func(ts []behaviour)
+	rec = func(ts []behaviour) {
+		for _, pre := range [][]behaviour{nil, {{Kind: "S", Code: 503, Read: 2}}} {
+			for _, body := range []string{"N", "R", "O"} {
+				for _, post := range []bool{false, true} {
+					c := &scriptCase{Op: "Q", MaxRetry: 2, Min: 100, Max: 1000, Tbl: []int64{50, 5000}, Dflt: 300, Cancel: -1, Body: body,
+						TokenPost: post, TokenScript: append([]behaviour(nil), ts...)}
+					if body != "N" {
+						c.Data = "0102030405"
+					}
+					c.Script = append(append([]behaviour(nil), pre...), behaviour{Kind: "S", Code: 401, Chal: 2, Read: -1},
+						behaviour{Kind: "S", Code: 502, Read: 1}, behaviour{Kind: "S", Code: 201, Read: -1})
+					scriptCaseRun(t, c)
+					run.Count("enumerated_tokens")
+				}
+			}
+		}
+		if len(ts) == maxLen {
+			return
+		}
+		for _, b := range tokenAlphabet {
+			rec(append(ts, b))
+		}
+	}
+	rec(nil)
+}
+
+// enumPushTokens: a few push shapes (POST challenged / PUT challenged / both retried / Basic) against
+// every token-service sequence up to maxLen, both body kinds, GET and POST token requests
+func enumPushTokens(t *testing.T, maxLen int) {
+	c401 := behaviour{Kind: "S", Code: 401, Chal: 2, Read: -1}
+	s202 := behaviour{Kind: "S", Code: 202, Read: -1, Lat: 4}
+	s201 := behaviour{Kind: "S", Code: 201, Read: -1}
+	shapes := [][]behaviour{
+		{c401, s202, s201},
+		{s202, c401, s201},
+		{{Kind: "S", Code: 503, Read: -1}, c401, s202, {Kind: "S", Code: 502, Read: 2}, s201},
+		{s202, {Kind: "S", Code: 401, Chal: 1, Read: 1}, s201},
+		{c401, s202, c401, s201},
+	}
+	alphabet := []behaviour{{Kind: "S", Code: 200, Read: -1, Lat: 2}, {Kind: "S", Code: 503, Read: 9}, {Kind: "S", Code: 403, Read: -1}, {Kind: "TO", Read: -1}}
+	var rec func(ts []behaviour)
+	rec = func(ts []behaviour) {
+		for _, sh := range shapes {
+			for _, body := range []string{"R", "O"} {
+				for _, post := range []bool{false, true} {
+					scriptCaseRun(t, &scriptCase{Op: "Z", MaxRetry: 2, Min: 100, Max: 1000, Tbl: []int64{50, 5000}, Dflt: 300, Cancel: -1, Body: body,
+						Data: "0102030405", TokenPost: post, TokenScript: append([]behaviour(nil), ts...), Script: append([]behaviour(nil), sh...)})
+					run.Count("enumerated_push_tokens")
+				}
+			}
+		}
+		if len(ts) == maxLen {
+			return
+		}
+		for _, b := range alphabet {
+			rec(append(ts, b))
+		}
+	}
+	rec(nil)
 }
 
 // ---------------------------------------------------------------- entry point
@@ -1736,12 +2147,20 @@ func replayCases(t *testing.T) {
 			continue
 		}
 		switch head.Op {
-		case "T", "A", "W", "V", "U", "u", "X":
+		case "T", "A", "W", "w", "V", "U", "u", "X", "Q", "Y", "y", "Z":
 			var c scriptCase
 			if err := json.Unmarshal(js, &c); err != nil {
 				panic(err)
 			}
 			scriptCaseRun(t, &c)
+		case "I":
+			var c struct {
+				Input string `json:"input"`
+			}
+			if err := json.Unmarshal(js, &c); err != nil {
+				panic(err)
+			}
+			parseIntCase(c.Input)
 		case "K":
 			var c tokenCase
 			if err := json.Unmarshal(js, &c); err != nil {
@@ -1772,6 +2191,7 @@ func replayCases(t *testing.T) {
 
 func TestVerif(t *testing.T) {
 	checkShapes()
+	checkLibraryFacts()
 	run.Rule = "a script counts when it led to more than one attempt (a retry or a re-send after a challenge); a policy point counts when the decision is not the trivial STOP"
 	if run.Replay != "" {
 		replayCases(t)
@@ -1830,8 +2250,10 @@ func TestVerif(t *testing.T) {
 		tokenScenario(t, genToken(r))
 	}
 	enumUploads(t, run.Scale(4, 5))
+	enumTokens(t, run.Scale(2, 3))
+	enumPushTokens(t, run.Scale(2, 4))
 	nScripts := run.Scale(2500, 400000)
-	nPoints := run.Scale(20000, 4000000)
+	nPoints := run.Scale(20000, 3000000)
 	nBig := run.Scale(6, 200)
 	for i := 0; i < nScripts; i++ {
 		scriptCaseRun(t, genScript(r, false))
@@ -1841,5 +2263,76 @@ func TestVerif(t *testing.T) {
 	}
 	for i := 0; i < nPoints; i++ {
 		pointCaseRun(genPoint(r))
+	}
+	for _, sv := range []string{"", "0", "-0", "+0", "9223372036854775807", "9223372036854775808", "-9223372036854775808", "-9223372036854775809",
+		"18446744073709551615", "18446744073709551616", "99999999999999999999999", "-99999999999999999999999", "+", "-", "00012", "1_000", "0x1f", " 1", "1 "} {
+		parseIntCase(sv)
+	}
+	for i := 0; i < run.Scale(3000, 200000); i++ {
+		parseIntCase(genIntString(r))
+	}
+	coverageFloors(t)
+}
+
+// parseIntCase: strconv.ParseInt(s, 10, 64) as ExponentialBackoff uses it (error ignored) against the
+// model's parse_int64 -- ties the hand-written integer reader of the model to the library.
+func parseIntCase(sv string) {
+	id := run.NewID()
+	v, _ := strconv.ParseInt(sv, 10, 64)
+	run.Case(id, "I "+common.Hex(sv), strconv.FormatInt(v, 10))
+	run.Count("parse_int")
+	if v != 0 {
+		run.Count("parse_int_nonzero")
+	}
+}
+
+func genIntString(r *common.Rand) string {
+	var sb strings.Builder
+	switch r.Intn(6) {
+	case 0:
+		sb.WriteString("-")
+	case 1:
+		sb.WriteString("+")
+	}
+	n := r.Intn(6)
+	if r.Chance(1, 3) {
+		n = 17 + r.Intn(6) // around the int64 range
+	}
+	for i := 0; i < n; i++ {
+		sb.WriteByte(byte('0' + r.Intn(10)))
+	}
+	if r.Chance(1, 5) {
+		s := sb.String()
+		pos := r.Intn(len(s) + 1)
+		return s[:pos] + common.Pick(r, []string{" ", "_", "x", ".", "-", "+", "e3", "٣", "\x00"}) + s[pos:]
+	}
+	return sb.String()
+}
+
+// coverageFloors: a run in which a stream produced (almost) nothing is a failure of the
+// correspondence layer, not a pass.
+func coverageFloors(t *testing.T) {
+	floors := map[string]int{
+		"op_T": 300, "op_A": 300, "op_W": 200, "op_V": 200, "op_U": 200, "op_u": 100, "op_X": 100, "op_Q": 100,
+		"op_AM": 20, "op_Tm": 20, "op_AI": 5, "op_Ti": 5,
+		"body_N": 100, "body_B": 100, "body_R": 100, "body_O": 100, "body_G": 100,
+		"result_ECTX": 100, "result_ENOTREWINDABLE": 20, "result_EGETBODY": 5, "result_EERR": 100, "result_EPRED": 20,
+		"result_ETOKEN": 10, "with_cancel": 300, "attempts_2": 300, "attempts_3": 100, "attempts_4": 30,
+		"enumerated": 1000, "enumerated_cancel_instants": 500, "enumerated_uploads": 1000, "enumerated_manifest": 20,
+		"point_BD": 500, "point_BP": 3000, "point_DP": 1000, "point_seen_W": 2000, "point_seen_FAIL": 100,
+		"real_transport": 4, "real_transport_complete_bodies": 2, "token_scenarios": 100, "oracle_only_default_policy": 100,
+		"token_attempts_2": 20, "parse_int": 2000, "parse_int_nonzero": 1000, "enumerated_tokens": 300, "op_Y": 50, "op_y": 50, "op_Z": 80, "enumerated_push_tokens": 300, "op_QM": 15, "op_w": 80,
+	}
+	var low []string
+	for k, min := range floors {
+		if run.Dist[k] < min {
+			low = append(low, fmt.Sprintf("%s=%d<%d", k, run.Dist[k], min))
+		}
+	}
+	if len(low) > 0 {
+		sort.Strings(low)
+		run.Finish()
+		fmt.Fprintln(os.Stderr, "coverage floor not reached:", strings.Join(low, " "))
+		os.Exit(4)
 	}
 }
